@@ -29,15 +29,19 @@ def families():
     import typelib
     src_a = "import dataclasses\n@dataclasses.dataclass\nclass Item:\n    a: int\n"
     src_b = "import dataclasses, decimal\n@dataclasses.dataclass\nclass Item:\n    a: decimal.Decimal\n"
+    src_i = ("import dataclasses, typing\n@dataclasses.dataclass\nclass InitF:\n    a: int\n    b: int = dataclasses.field(init=False, default=7)\n"
+             "    def __post_init__(self):\n        self.b = self.a + 1\n"
+             "class NT(typing.NamedTuple):\n    x: int\n    y: str = 'd'\n"
+             "class TD(typing.TypedDict):\n    x: int\n    y: typing.NotRequired[str]\n")
     src_r = ("import dataclasses, typing\n@dataclasses.dataclass\nclass R1:\n    v: int\n    nxt: 'typing.Optional[R1]' = None\n"
              "    kids: 'list[R1]' = dataclasses.field(default_factory=list)\n")
     mods = {}
-    for name, src in (("verif_hist_a", src_a), ("verif_hist_b", src_b), ("verif_hist_r", src_r)):
+    for name, src in (("verif_hist_a", src_a), ("verif_hist_b", src_b), ("verif_hist_r", src_r), ("verif_hist_i", src_i)):
         m = types.ModuleType(name)
         sys.modules[name] = m
         exec(compile(src + "\nimport typelib\ndef um(ref, x):\n    return typelib.unmarshal(ref, x)\n", name, "exec", dont_inherit=True), m.__dict__)
         mods[name] = m
-    A, B, R = mods["verif_hist_a"], mods["verif_hist_b"], mods["verif_hist_r"]
+    A, B, R, I = mods["verif_hist_a"], mods["verif_hist_b"], mods["verif_hist_r"], mods["verif_hist_i"]
     U = typing.Union
     u12 = datetime.datetime(2020, 1, 1, 12, tzinfo=UTC)
     nested = lambda: {"v": "1", "nxt": {"v": "2", "kids": [{"v": "3"}]}, "kids": [{"v": "4"}]}      # noqa: E731
@@ -78,6 +82,18 @@ def families():
                           (1, 2): (lambda x: typelib.codec(dict[str, int], encoder=std_dumps).encode(x), lambda: {"a": 1}),
                           (2, 1): (lambda x: typelib.decode(list[int], x), lambda: b'["1"]'),
                           (2, 2): (lambda x: typelib.codec(list[int]).decode(x), lambda: b'["1"]')},
+        # one class, different routine kinds: the order in which its routines are first built must not matter
+        "build_order": {(1, 1): um(I.InitF, lambda: {"a": "1"}), (1, 2): ma(I.InitF, lambda: I.InitF(a=1)),
+                        (2, 1): (lambda x: typelib.codec(I.InitF).encode(x), lambda: I.InitF(a=2)),
+                        (2, 2): (lambda x: typelib.codec(list[I.InitF]).decode(x), lambda: b'[{"a": "3"}]')},
+        "build_order_nt": {(1, 1): um(I.NT, lambda: {"x": "1"}), (1, 2): ma(I.NT, lambda: I.NT(x=1)),
+                           (2, 1): um(I.TD, lambda: {"x": "1", "y": 2}), (2, 2): ma(I.TD, lambda: {"x": 1, "y": "s"})},
+        # one routine, different inputs of one class: an earlier input must not change how a later one is handled
+        "same_routine_inputs": {(1, 1): um(U[int, str], lambda: "1"), (1, 2): um(U[int, str], lambda: "abc"),
+                                (2, 1): (lambda x: typelib.codec(list[U[int, str]]).decode(x), lambda: b'["7"]'),
+                                (2, 2): (lambda x: typelib.codec(list[U[int, str]]).decode(x), lambda: b'["x"]')},
+        "same_routine_inputs2": {(1, 1): ma(U[int, str], lambda: "7"), (1, 2): ma(U[int, str], lambda: "seven"),
+                                 (2, 1): um(typing.Optional[str], lambda: "a"), (2, 2): um(typing.Optional[str], lambda: None)},
         "dateparse": {(1, 1): um(datetime.datetime, lambda: "2020-01-01"), (1, 2): um(datetime.date, lambda: "2020-01-01"),
                       (2, 1): um(datetime.timedelta, lambda: "PT1S"), (2, 2): um(datetime.timedelta, lambda: 1)},
     }
@@ -217,4 +233,5 @@ class Zygote:
 
 
 FAMILY_NAMES = ["union_unmarshal", "union_marshal", "union_in_list", "instants", "instants_in_list", "text_carriers",
-                "bare_containers", "numbers", "same_name_classes", "string_refs", "recursive", "codec_configs", "dateparse"]
+                "bare_containers", "numbers", "same_name_classes", "string_refs", "recursive", "codec_configs", "dateparse",
+                "build_order", "build_order_nt", "same_routine_inputs", "same_routine_inputs2"]
